@@ -654,6 +654,12 @@ def c02_r7_pending_pins(ctx):
         e = ctx.sites(f, 'BTreeMap::entry', exact=1)
         i = ctx.sites(f, 'BTreeMap::insert', exact=1)
         ctx.held(f, e + i, 'self.state')
+        # every non-durable commit is registered and pins its durable ancestor -- also one that
+        # freed nothing (its readers must still be recognised as readers of a non-durable commit)
+        ctx.must_pass(f, e, exits='any', what='every non-durable commit pins its durable ancestor')
+        ctx.must_pass(f, i, exits='any', what='every non-durable commit is recorded as pending')
+        bi = ctx.sites(f, 'BTreeSet::insert', exact=1)
+        ctx.guarded(f, bi, [Guard(place='has_unprocessed_freed_pages', vals={'true'})])
         for p in e:
             ctx.flows(f, p, 1, from_arg='durable_ancestor')
     f = ctx.fn(WT + '::non_durable_commit')
@@ -1826,6 +1832,7 @@ def c06_r4_rebuild(ctx):
         direct = ctx.sites(f, TM + '::mark_page_allocated', exact=1)
         for p in direct:
             ctx.flows(f, p, 1, from_call=TM + '::unpersisted_data_freed_pages')
+        ctx.each_iteration_passes(f, direct, 'every in-memory pending-free page is marked allocated by the rebuild', 'pending-free-skipped')
         # every closure passed to a walker marks the page
         for cl in f.closures:
             if cl.calls_to(TM + '::mark_page_allocated'):
@@ -1873,6 +1880,10 @@ def c06_r6_restore(ctx):
     ri = ctx.sites(f, 'SavepointTransactionState::record_invalidated', exact=1)
     for x in sr + ex + rs + ua + rg + ri:
         ctx.must_pass(f, [x], what='every successful restore passes %s' % x.desc)
+    # both table ranges start at the transaction AFTER the savepoint's (inclusive lower bound T+1): the
+    # records of T itself belong to the restored state
+    for x in ex + rg:
+        ctx.flows(f, x, 1, from_call=['Savepoint::get_transaction_id', 'TransactionId::next'], what='%s starts at savepoint transaction id + 1' % x.desc)
     for p in ua:
         ctx.flows(f, p, 1, from_call='Savepoint::get_transaction_id')
         # `unpersisted_allocations_after` is exclusive ("strictly after"): it takes the savepoint's own
